@@ -68,7 +68,8 @@ pub struct Ext {
     vote_tally: Vec<HashMap<(Round, Digest), Tally>>,
     timeout_tally: Vec<HashMap<Round, Tally>>,
     // C19
-    tc_sent: HashSet<(usize, usize, Round)>,
+    /// (node, round) -> content identity of the TC it sent for that round.
+    tc_sent: HashMap<(usize, Round), Digest>,
     // C12 / C11 / C13
     pub batch_first_src: HashMap<Digest, (usize, u64)>,
     conn_reqs: HashMap<usize, Vec<Option<Digest>>>,
@@ -113,7 +114,7 @@ impl Ext {
             evidence: vec![0; n],
             vote_tally: (0..n).map(|_| HashMap::new()).collect(),
             timeout_tally: (0..n).map(|_| HashMap::new()).collect(),
-            tc_sent: HashSet::new(),
+            tc_sent: HashMap::new(),
             batch_first_src: HashMap::new(),
             conn_reqs: HashMap::new(),
             acks: HashMap::new(),
@@ -459,21 +460,22 @@ fn consensus_written(o: &mut Observer, ev: &TapEvent, m: &ConsensusMessage) {
                 o.violate("C20", "own-vote-bad-signature", Some(i), format!("node {} emitted a vote for round {} whose signature does not verify", i, v.round));
             }
             note_vote_cast(o, i, v.round, &v.hash, "vote on the wire");
-            let (qc_round, ok_shape, author, sig_ok, known, payload) = match o.blocks.get(&v.hash) {
-                Some(rec) => {
-                    let b = &rec.block;
-                    let direct = b.qc.round + 1 == b.round;
-                    let via_tc = b.tc.as_ref().map_or(false, |tc| tc.round + 1 == b.round && b.qc.round >= tc_max_high(tc));
-                    (
-                        b.qc.round,
-                        (direct || via_tc) && b.qc.round < b.round && b.round == v.round,
-                        b.author,
-                        ident::verify_sig(&rec.digest, &b.author, &b.signature),
-                        true,
-                        b.payload.clone(),
-                    )
+            // A vote names a digest; the digest does not bind the TC, the QC's votes or the block
+            // signature, so the vote is judged against every variant seen under that digest: it is
+            // fine if one of them is safe to vote for (resp. is the leader's correctly signed block).
+            let (qc_round, ok_shape, author, sig_ok, known, payload) = match o.variants.get(&v.hash) {
+                Some(vs) if !vs.is_empty() => {
+                    let shape_ok = |b: &Block| {
+                        let direct = b.qc.round + 1 == b.round;
+                        let via_tc = b.tc.as_ref().map_or(false, |tc| tc.round + 1 == b.round && b.qc.round >= tc_max_high(tc));
+                        (direct || via_tc) && b.qc.round < b.round && b.round == v.round
+                    };
+                    let any_shape = vs.iter().any(|b| shape_ok(b));
+                    let any_sig = vs.iter().any(|b| ident::verify_sig(&v.hash, &b.author, &b.signature));
+                    let b0 = &vs[0];
+                    (b0.qc.round, any_shape, b0.author, any_sig, true, b0.payload.clone())
                 }
-                None => (0, false, PublicKey::default(), false, false, Vec::new()),
+                _ => (0, false, PublicKey::default(), false, false, Vec::new()),
             };
             if !known {
                 // The block has not crossed the wire yet (a leader's own vote can overtake its
@@ -620,13 +622,17 @@ fn consensus_written(o: &mut Observer, ev: &TapEvent, m: &ConsensusMessage) {
         ConsensusMessage::TC(tc) => {
             o.probe("C19.tc-broadcast");
             check_emitted_tc(o, i, tc, "as a broadcast");
-            if !o.ext.tc_sent.insert((i, dst, tc.round)) {
-                o.violate("C19", "tc-sent-twice", Some(i), format!("node {} sent the TC of round {} to {} more than once", i, tc.round, dst));
-            }
-            let lk = o.ext.link_core.entry((i, dst)).or_default();
-            if tc.round < lk.max_acting_round {
-                let prev = lk.max_acting_round;
-                o.violate("C10", "acting-round-regressed", Some(i), format!("node {} sent to {} the TC of round {} after acting in round {}", i, dst, tc.round, prev));
+            // A certificate is assembled at most once per round: whatever the node sends for one
+            // round (to all peers, or again later to a peer that lags) must be the same TC.
+            let cid = ident::content_id(tc);
+            match o.ext.tc_sent.get(&(i, tc.round)) {
+                Some(prev) if *prev != cid => {
+                    o.violate("C19", "two-different-tcs-for-one-round", Some(i), format!("node {} sent two different TCs for round {}", i, tc.round));
+                }
+                Some(_) => {}
+                None => {
+                    o.ext.tc_sent.insert((i, tc.round), cid);
+                }
             }
         }
         ConsensusMessage::SyncRequest(d, origin) => {
